@@ -2,8 +2,8 @@ package rules
 
 func init() {
 	reg("C11", &PropSpec{
-		Rules:       []Rule{r("H1", RuleH1), r("H2", RuleH2), r("H3", RuleH3), r("K1", RuleK1), r("CK1", RuleCK1), r("MC1", RuleMC1), r("FC1", RuleFC1), r("PU1", RulePU1), r("RP1", RuleRP1), r("TP1", RuleTP1), r("LR1", RuleLR1), r("NE2", RuleNE2), r("SH1", RuleSH1)},
-		Explanation: "The mechanism each static check relies on is present on every path at every site: every insert into a uniqueness collection is dominated by a membership test on the same collection and key (H1), every directive parameter that becomes a collection key is compared with the empty string first (H2), every singleton slot of the catalog model is written only after a test that it is still empty (H3), and every directive kind has a consumer so the checks are reached for it (K1). Decides presence of the mechanism, not that each diagnostic is located at the offending directive nor the similar-path string logic. No found-means-done shortcut bypasses a duplicate-rejecting inserter (MC1); kind tests that reject something are fail-closed (FC1). The one-Path-per-parent test is decided from everything the walk met, not from a neighbouring element (PU1). 'Required parameter P' is reached exactly under NamedParameter(P) == \"\" (RP1). No loop over a slice ends unconditionally in its first iteration (LR1); the error that came with a value is the one tested before the value is used (NE2); no verdict is lost in a shadowed error variable (SH1); own Tags are resolved before the URL's (TP1).",
+		Rules:       []Rule{r("H1", RuleH1), r("H2", RuleH2), r("H3", RuleH3), r("K1", RuleK1), r("CK1", RuleCK1), r("MC1", RuleMC1), r("FC1", RuleFC1), r("PU1", RulePU1), r("RP1", RuleRP1), r("TP1", RuleTP1), r("LR1", RuleLR1), r("NE2", RuleNE2), r("SH1", RuleSH1), r("KI1", RuleKI1)},
+		Explanation: "The mechanism each static check relies on is present on every path at every site: every insert into a uniqueness collection is dominated by a membership test on the same collection and key (H1), every directive parameter that becomes a collection key is compared with the empty string first (H2), every singleton slot of the catalog model is written only after a test that it is still empty (H3), and every directive kind has a consumer so the checks are reached for it (K1). Decides presence of the mechanism, not that each diagnostic is located at the offending directive nor the similar-path string logic. No found-means-done shortcut bypasses a duplicate-rejecting inserter (MC1); kind tests that reject something are fail-closed (FC1). The one-Path-per-parent test is decided from everything the walk met, not from a neighbouring element (PU1). 'Required parameter P' is reached exactly under NamedParameter(P) == \"\" (RP1). No loop over a slice ends unconditionally in its first iteration (LR1); the error that came with a value is the one tested before the value is used (NE2); no verdict is lost in a shadowed error variable (SH1); own Tags are resolved before the URL's (TP1). A uniqueness set is keyed by the scope it protects, never by a directive's kind alone (KI1).",
 		Trusted:     trustedCommon,
 	})
 }
